@@ -25,8 +25,9 @@
 (***************************************************************************)
 EXTENDS Integers, Sequences, FiniteSets, TLC, SequencesExt
 
-CONSTANTS Inputs,   \* set of input records [ff (id), F (the force field: [blocks, links, mods]), n, start, rn, fi, edges, sel]
-          Dev       \* record of BOOLEAN deviation flags   (shapes: see MC_FFMap / FFTrace)
+CONSTANTS Inputs,   \* set of input records [id, ff (id), F (the force field: [blocks, links, mods]), n, start, rn, fi, edges, sel,
+                    \*                       useApps, apps]   (shapes: see MC_FFMap / FFTrace)
+          Dev       \* record of BOOLEAN deviation flags
 
 VARIABLES inp,      \* the input of this behaviour
           pc,       \* "match" "tag" "add" "links" "mods" "done"
@@ -47,9 +48,31 @@ VARIABLES inp,      \* the input of this behaviour
           fired     \* open deviations that changed this behaviour
 vars == <<inp, pc, n2b, slice, bx, order, k, atoms, inters, medges, gattr, added, cbase, removed, molN, err, fired>>
 
+(* deviation flag settings *)
+NoDev == [unsorted |-> FALSE, firstKeeps |-> FALSE, sliceAny |-> FALSE, offByOne |-> FALSE, renumber |-> FALSE,
+          keepRemoved |-> FALSE, firstFragUnshifted |-> FALSE, treeEdges |-> FALSE, dedupKey |-> FALSE,
+          exMax |-> FALSE, exTagLost |-> FALSE, exCutoff |-> FALSE, modAnyRes |-> FALSE, versionInKey |-> FALSE]
+DevUnsorted == [NoDev EXCEPT !.unsorted = TRUE]
+DevFirstKeeps == [NoDev EXCEPT !.firstKeeps = TRUE]
+DevSliceAny == [NoDev EXCEPT !.sliceAny = TRUE]
+DevOffByOne == [NoDev EXCEPT !.offByOne = TRUE]
+DevRenumber == [NoDev EXCEPT !.renumber = TRUE]
+DevKeepRemoved == [NoDev EXCEPT !.keepRemoved = TRUE]
+DevF14 == [NoDev EXCEPT !.firstFragUnshifted = TRUE]
+DevF17 == [NoDev EXCEPT !.treeEdges = TRUE]
+DevF16 == [NoDev EXCEPT !.dedupKey = TRUE]
+DevExMax == [NoDev EXCEPT !.exMax = TRUE]
+DevExTagLost == [NoDev EXCEPT !.exTagLost = TRUE]
+DevExCutoff == [NoDev EXCEPT !.exCutoff = TRUE]
+DevModAnyRes == [NoDev EXCEPT !.modAnyRes = TRUE]
+\* what the tree currently does: the open findings switched on (known_findings.d)
+DevVersionInKey == [NoDev EXCEPT !.versionInKey = TRUE]
+DevAsIs == [NoDev EXCEPT !.firstFragUnshifted = TRUE, !.treeEdges = TRUE, !.dedupKey = TRUE, !.versionInKey = TRUE]
+
 ProteinNames == {"GLY", "ALA", "CYS", "VAL", "LEU", "ILE", "MET", "PRO", "HYP", "ASN", "GLN", "ASP", "ASP0", "GLU", "GLU0",
                  "THR", "SER", "LYS", "LYS0", "ARG", "ARG0", "HIS", "HISH", "PHE", "TYR", "TRP"}
 EdgeSections == {"bonds", "constraints"}
+VerTags == <<"i1", "i2", "i3", "i4", "i5", "i6", "i7", "i8", "i9">>      \* integer version tags as the projection writes them
 
 (* ------------------------------------------------------------------ *)
 (* generic helpers                                                    *)
@@ -69,6 +92,8 @@ Perms(S) == {p \in [1..Cardinality(S) -> S] : \A i, j \in DOMAIN p : i # j => p[
 RECURSIVE Ball(_, _, _)
 Ball(E, a, d) == IF d <= 0 THEN {a} ELSE LET B == Ball(E, a, d - 1) IN B \cup {y \in UNION E : \E x \in B : {x, y} \in E}
 Within(E, a, b, d) == d >= 0 /\ b \in Ball(E, a, d)
+\* BallTab[a][d + 1] = atoms within d bonds of a, d = 0..dmax
+BallTab(E, nA, dmax) == TLCEval([a \in 1..nA |-> TLCEval([d \in 1..(dmax + 1) |-> Ball(E, a, d - 1)])])
 
 (* ------------------------------------------------------------------ *)
 (* input accessors                                                    *)
@@ -171,7 +196,9 @@ AppsOfLink(I, li, A, gat) ==
                   ELSE [lk |-> li, rep |-> <<[a |-> ga, f |-> "ty", v |-> l.par[1]], [a |-> ga, f |-> "q", v |-> l.par[2]]>>, rem |-> <<>>, ints |-> <<>>]
       sel == SelectSeq(ms, ok)
   IN TLCEval([x \in DOMAIN sel |-> app(sel[x])])
-LinkApps(I, A, gat) == FlattenSeq([li \in DOMAIN FL(I) |-> AppsOfLink(I, li, A, gat)])
+\* the applicable (link, match) pairs: by the minimal link rule above, or - for force fields whose links go beyond it (the
+\* library force fields in trace validation) - as observed at ApplyLinks.apply_link_between_residues (I.useApps)
+LinkApps(I, A, gat) == IF I.useApps THEN I.apps ELSE FlattenSeq([li \in DOMAIN FL(I) |-> AppsOfLink(I, li, A, gat)])
 
 SetF(atom, f, v) == CASE f = "ty" -> [atom EXCEPT !.ty = v] [] f = "q" -> [atom EXCEPT !.q = v] [] f = "an" -> [atom EXCEPT !.an = v]
                       [] f = "m" -> [atom EXCEPT !.m = v] [] f = "rn" -> [atom EXCEPT !.rn = v] [] OTHER -> atom
@@ -243,14 +270,16 @@ PairsOf(nA) == {{a, b} : a \in 1..nA, b \in 1..nA} \ {{a} : a \in 1..nA}
 NrexclOf(I, nm) == BlockNamed(I, nm).nrexcl
 \* excluded iff the bond-graph distance in the final molecule is within the distance prescribed by the block of one of the
 \* two atoms, or a block or link excludes the pair explicitly
-ExclPF(I, F) ==
-  LET E == BondE(F.inters)  nA == Len(F.atoms)
-      e(g) == NrexclOf(I, F.blockOf[g])
-      dist == {p \in PairsOf(nA) : \E a \in p : \E b \in p \ {a} : Within(E, a, b, MaxOf(e(a), e(b)))}
-  IN dist \cup (Explicit(F.inters) \ {{a} : a \in 1..nA})
+ExclPT(I, F, T, e) ==
+  LET nA == Len(F.atoms) IN
+    {p \in PairsOf(nA) : \E a \in p : \E b \in p \ {a} : b \in T[a][MaxOf(e[a], e[b]) + 1]}
+    \cup (Explicit(F.inters) \ {{a} : a \in 1..nA})
+ExclPF(I, F) == With(BallTab(BondE(F.inters), Len(F.atoms), 4), LAMBDA T :
+                  With(TLCEval([g \in 1..Len(F.atoms) |-> NrexclOf(I, F.blockOf[g])]), LAMBDA e : ExclPT(I, F, T, e)))
 ExclP(I) == With(PFinal(I), LAMBDA F : ExclPF(I, F))
 \* what a written molecule means: pairs within nrexcl bonds plus the listed pairs
-ExclEff(N, ints, nA) == {p \in PairsOf(nA) : \E a \in p : \E b \in p \ {a} : Within(BondE(ints), a, b, N)}
+ExclEff(N, ints, nA) == With(BallTab(BondE(ints), nA, N), LAMBDA T :
+                          {p \in PairsOf(nA) : \E a \in p : \E b \in p \ {a} : b \in T[a][N + 1]})
                         \cup (Explicit(ints) \ {{a} : a \in 1..nA})
 UsedNrexcl(I) == {NrexclOf(I, BlkName(I, i)) : i \in Pos(I)}
 Uniform(I) == Cardinality(UsedNrexcl(I)) = 1
@@ -364,16 +393,17 @@ ApplyReps(A, s) == IF s = <<>> THEN A ELSE ApplyReps([A EXCEPT ![Head(s).a] = Se
 \* expand_excl: neighbourhood(node, max = tag, min = nrexcl) counts path length in nodes
 Generated(A, E, N) ==
   IF \A g \in DOMAIN A : A[g].ex <= N THEN {} ELSE
-  {p \in PairsOf(Len(A)) : \E a \in p : \E b \in p \ {a} :
+  With(BallTab(E, Len(A), 5), LAMBDA T :
+    {p \in PairsOf(Len(A)) : \E a \in p : \E b \in p \ {a} :
        /\ A[a].ex > N
-       /\ Within(E, a, b, IF Dev.exCutoff THEN A[a].ex - 1 ELSE A[a].ex)
-       /\ ~Within(E, a, b, N - 2)}
+       /\ LET hi == IF Dev.exCutoff THEN A[a].ex - 1 ELSE A[a].ex IN hi >= 0 /\ b \in T[a][hi + 1]
+       /\ (N - 2 < 0 \/ b \notin T[a][N - 2 + 1])})
 ApplyLinks ==
   /\ pc = "links"
   /\ \E apps \in {LinkApps(inp, atoms, gattr)} :
      LET I == inp
          \* a residue whose 'graph' is empty makes the atom look-up of any link that reaches it fail with an IndexError
-         idxErr == \E li \in DOMAIN FL(I) : \E m \in ResMatches(I, FL(I)[li]) : gattr[m[1]] = {} \/ gattr[m[2]] = {}
+         idxErr == ~I.useApps /\ \E li \in DOMAIN FL(I) : \E m \in ResMatches(I, FL(I)[li]) : gattr[m[1]] = {} \/ gattr[m[2]] = {}
          A1 == ApplyReps(atoms, FlattenSeq([j \in DOMAIN apps |-> apps[j].rep]))
          R == UNION {ToSet(apps[j].rem) : j \in DOMAIN apps}
          lseq == FlattenSeq([j \in DOMAIN apps |-> apps[j].ints])
@@ -381,7 +411,10 @@ ApplyLinks ==
          \* (section, atoms, version) collapse; intended: only link interactions replace
          d0 == IF Dev.dedupKey THEN DictPut(<<>>, inters) ELSE SelectSeq(inters, LAMBDA x : \A y \in ToSet(lseq) : Key(y) # Key(x))
          d1 == IF Dev.dedupKey THEN DictPut(d0, lseq) ELSE d0 \o DictPut(<<>>, lseq)
-         d2 == IF Dev.keepRemoved THEN d1 ELSE SelectSeq(d1, LAMBDA x : ~Touches(x, R))
+         \* finding "removed-node-key-equals-version" (proposed under C02): the write-back loop tests the members of the
+         \* dictionary key (0-based atom keys ..., version number) instead of the atoms
+         verHit(x) == Dev.versionInKey /\ \E v \in 1..9 : x.ver = VerTags[v] /\ (v + 1) \in R
+         d2 == IF Dev.keepRemoved THEN d1 ELSE SelectSeq(d1, LAMBDA x : ~Touches(x, R) /\ ~verHit(x))
          \* finding F7 (repaired): relabel_and_redo_res_graph renumbers all residue ids from 0
          A2 == TLCEval(IF Dev.renumber /\ R # {} THEN [g \in DOMAIN A1 |-> [A1[g] EXCEPT !.resid = @ - I.start]] ELSE A1)
          E2 == {e \in medges \cup LinkEdges(apps) : e \cap R = {}}
@@ -394,7 +427,8 @@ ApplyLinks ==
              /\ gattr' = [i \in Pos(I) |-> gattr[i] \ R]
              /\ inters' = d2 \o [x \in DOMAIN genSeq |-> LET p == genSeq[x]  a == CHOOSE a \in p : \A o \in p : a <= o IN
                                     [sec |-> "exclusions", at |-> <<a, CHOOSE o \in p : o # a>>, par |-> <<>>, ver |-> "gen", occ |-> 1]]
-             /\ fired' = IF Dev.dedupKey /\ Len(d0) # Len(inters) THEN fired \cup {"F16"} ELSE fired
+             /\ fired' = (IF Dev.dedupKey /\ Len(d0) # Len(inters) THEN fired \cup {"F16"} ELSE fired)
+                          \cup (IF \E j \in DOMAIN d1 : verHit(d1[j]) /\ ~Touches(d1[j], R) THEN {"removed-node-key-equals-version"} ELSE {})
              /\ err' = err /\ pc' = "mods"
   /\ UNCHANGED <<inp, n2b, slice, bx, order, k, added, cbase, molN>>
 
